@@ -87,7 +87,9 @@ def erase_ghost(toks):
                 add_ann(toks[i + 1:i + 3])
                 i += 3
                 continue
-            if tx in CLAUSE_KW:
+            if tx in CLAUSE_KW and not (
+                    (i > 0 and toks[i - 1].text in ("fn", ".", "::", "let", "mut", "&", "|"))
+                    or (i + 1 < n and toks[i + 1].text in (":", ",", ")", ".", ";", "=", "]"))):
                 # skip to the '{' at depth 0
                 j = i + 1
                 while j < n:
